@@ -121,7 +121,7 @@ Definition put_node (n : node) : list Z :=
   ++ [n_id n; Z.of_nat (length (n_dhcp n))] ++ flat_map (fun kv => [fst kv; snd kv]) (n_dhcp n)
   ++ [zbool (n_do_dhcp n)].
 
-Definition outn {A} (pr : A -> list Z) (x : result A * node * world) : list Z * node * world :=
+Definition outn {A bus} (pr : A -> list Z) (x : result A * node * bus) : list Z * node * bus :=
   match x with
   | (Ok a, n, w) => (0 :: pr a, n, w)
   | (Exn e, n, w) => ([exn_code e], n, w)
@@ -142,27 +142,29 @@ Fixpoint take_pairs (n : nat) (s : list Z) : list (Z * Z) * list Z :=
            end
   end.
 
-Definition node_call (me : nat) (k : nkind) (code : Z) (s : list Z) (n : node) (w : world)
-  : option (list Z * node * world * list Z) :=
-  let r0 {A} (pr : A -> list Z) (m : NM (bus := world) A) (rest : list Z) :=
+Section Call.
+Context {bus : Type} (B : busops bus).
+Definition node_call_g (k : nkind) (code : Z) (s : list Z) (n : node) (w : bus)
+  : option (list Z * node * bus * list Z) :=
+  let r0 {A} (pr : A -> list Z) (m : NM (bus := bus) A) (rest : list Z) :=
       let '(o, n', w') := outn pr (m n w) in Some (o, n', w', rest) in
   let mc := is_mesh_master_class k in
   match code, s with
-  | 100, t => r0 pr_z (update_of (WB me) k) t
+  | 100, t => r0 pr_z (update_of B k) t
   | 101, t => match take_frame t with
-              | Some (f, td :: r) => r0 pr_bool (net_write (WB me) f td) r
+              | Some (f, td :: r) => r0 pr_bool (net_write B f td) r
               | _ => None
               end
   | 102, t => match take_bytes t with
               | Some (m, ty :: r) =>
                 match take_optZ r with
-                | Some (lv, r2) => r0 pr_bool (net_multicast (WB me) m ty lv) r2
+                | Some (lv, r2) => r0 pr_bool (net_multicast B m ty lv) r2
                 | None => None
                 end
               | _ => None
               end
-  | 103, z :: t => r0 pr_unit (set_node_address (WB me) z) t
-  | 104, z :: t => r0 pr_unit (set_multicast_level (WB me) z) t
+  | 103, z :: t => r0 pr_unit (set_node_address B z) t
+  | 104, z :: t => r0 pr_unit (set_multicast_level B z) t
   | 105, b :: t => r0 pr_unit (nmod (fun n => set_flags n (boolz b && n_allow_mc n) (n_frag n) (n_allow_mc n)
                                                        (n_ret_sys n) (n_parenthood n) (n_max_len n))) t
   | 106, b :: t => r0 pr_unit (set_fragmentation (boolz b)) t
@@ -179,23 +181,23 @@ Definition node_call (me : nat) (k : nkind) (code : Z) (s : list Z) (n : node) (
                                                            | Frag q => Frag (mkFQ (set_max (base q) z) (cache q))
                                                            end))) t
   | 120, i :: ty :: t => match take_bytes t with
-                         | Some (m, fid :: r) => r0 pr_bool (mesh_send (WB me) mc i ty m fid) r
+                         | Some (m, fid :: r) => r0 pr_bool (mesh_send B mc i ty m fid) r
                          | _ => None
                          end
   | 121, a :: ty :: t => match take_bytes t with
-                         | Some (m, fid :: r) => r0 pr_bool (mesh_write (WB me) a ty m fid) r
+                         | Some (m, fid :: r) => r0 pr_bool (mesh_write B a ty m fid) r
                          | _ => None
                          end
-  | 122, tmo :: t => r0 pr_optz (renew_address (WB me) mc tmo) t
-  | 123, t => r0 pr_bool (release_address_node (WB me)) t
-  | 124, t => match take_optZ t with Some (a, r) => r0 pr_z (lookup_address (WB me) mc a) r | None => None end
-  | 125, t => match take_optZ t with Some (a, r) => r0 pr_z (lookup_node_id (WB me) mc a) r | None => None end
-  | 126, at_ :: pm :: fid :: t => r0 pr_bool (check_connection (WB me) mc (Z.to_nat at_) (boolz pm) fid) t
-  | 127, z :: t => r0 pr_unit (set_node_id (WB me) z) t
+  | 122, tmo :: t => r0 pr_optz (renew_address B mc tmo) t
+  | 123, t => r0 pr_bool (release_address_node B) t
+  | 124, t => match take_optZ t with Some (a, r) => r0 pr_z (lookup_address B mc a) r | None => None end
+  | 125, t => match take_optZ t with Some (a, r) => r0 pr_z (lookup_node_id B mc a) r | None => None end
+  | 126, at_ :: pm :: fid :: t => r0 pr_bool (check_connection B mc (Z.to_nat at_) (boolz pm) fid) t
+  | 127, z :: t => r0 pr_unit (set_node_id B z) t
   | 128, b :: t => r0 pr_unit (nmod (fun n => set_flags n (n_relay n) (n_frag n) (n_allow_mc n) (n_ret_sys n)
                                                        (boolz b) (n_max_len n))) t
   | 129, a :: t =>   (* RF24Mesh.release_address(address) *)
-    if a =? 0 then r0 pr_bool (release_address_node (WB me)) t
+    if a =? 0 then r0 pr_bool (release_address_node B) t
     else r0 pr_bool (fun n w => let '(r, d') := release_addr (n_dhcp n) a in
                                 (Ok r, set_mesh n (n_id n) d' (n_do_dhcp n), w)) t
   | 130, i :: a :: ba :: t =>
@@ -217,6 +219,9 @@ Definition node_call (me : nat) (k : nkind) (code : Z) (s : list Z) (n : node) (
                              end) t
   | _, _ => None
   end.
+End Call.
+
+Definition node_call (me : nat) := node_call_g (WB me).
 
 Fixpoint set_nth_nobj (l : list (nat * nkind * node)) (i : nat) (v : nat * nkind * node) :=
   match l, i with
